@@ -142,6 +142,11 @@ class Run(object):
         elif res["rc"] != 0:
             self.machinery.append("MC tlc rc=%s\n%s" % (res["rc"], res["out"][-3000:]))
         if replay and leaves:
+            cap = 1500 if self.tier == "quick" else 5000
+            info["leaves_replayed"] = min(len(leaves), cap)
+            if len(leaves) > cap:       # a seeded sample of the behaviours is replayed (the counterexample always is)
+                keep = leaves[-1:] if res["violated"] else []
+                leaves = random.Random(self.seed).sample(leaves, cap - len(keep)) + keep
             rr = mc.replay_leaves(defs, leaves, lang=lang)
             mism = [m for r in rr if r.get("ok") for m in r["mismatches"]]
             self.divergences += len(mism)
@@ -149,6 +154,29 @@ class Run(object):
                 self.extra.setdefault("divergence_samples", []).extend(mism[:3])
             self.add_results(rr, 12000, 16)
         return res
+
+    def add_test_traces(self, paths=("orquesta/tests",)):
+        """the repository's own tests as a trace source: record every conductor they drive
+        (harness/testrec.py) and validate the traces with spec/TestTrace.tla"""
+        from . import testtraces as TT
+        try:
+            traces, info = TT.record(self.tmp, paths)
+            results, stats = TT.to_results(traces)
+        except Exception as e:
+            import traceback
+            self.machinery.append("test-trace recorder: %s\n%s" % (e, traceback.format_exc()[-1500:]))
+            return
+        stats.update(info)
+        self.extra["repo_test_traces"] = stats
+        if not results:
+            self.machinery.append("test-trace recorder produced no trace: %s" % info)
+            return
+        module, conform = self.module, self.conform
+        self.module, self.conform = "TestTrace", False
+        try:
+            self.add_results(results, 12000, 16)
+        finally:
+            self.module, self.conform = module, conform
 
     def add_groups(self, groups, chunk=4000):
         """groups: [{gid, kind, def (tla shape), members:[{role, fin}], replay: {...}}] -> TLC Groups.tla"""
@@ -330,7 +358,16 @@ class Run(object):
         return path
 
     # -- evidence + exit ------------------------------------------------------------------------
+    # properties with clauses in spec/TestTrace.tla: the repository's own tests are one more trace source
+    TT_QUICK = ("C01", "C02", "C03", "C04", "C07", "C09", "C10", "C18", "C19")
+    TT_THOROUGH = TT_QUICK + ("C11", "C15", "C17")
+
     def finish(self, level, rule, assumptions, level_extra=None):
+        if "repo_test_traces" not in self.extra and os.environ.get("VERIF_NO_TEST_TRACES") != "1":
+            if self.prop in self.TT_QUICK:
+                self.add_test_traces(("orquesta/tests/unit/conducting",) if self.tier == "quick" else ("orquesta/tests",))
+            elif self.prop in self.TT_THOROUGH and self.tier != "quick":
+                self.add_test_traces(("orquesta/tests",))
         viol, known = self.classify()
         lines = []
         seen_kf = {}
